@@ -25,12 +25,31 @@
    kept in the per-function list `labels`, matched by resolve_goto_labels() and
    reset after each function.  Members are looked up in the struct type.
 
+   Tags (C11 6.7.2.3).  A scope maps the tag x to a TYPE; a type is incomplete
+   until a definition completes it.  Three forms are distinguished:
+     definition   `struct x { ... };`  ALWAYS concerns the CURRENT scope: it
+                  completes the incomplete type the current scope already has for
+                  x, otherwise it declares a new type there — even if an enclosing
+                  scope holds a (complete or incomplete) x;
+     "tagfwd"     `struct x;`   declares x in the current scope (a new incomplete
+                  type that hides an outer x) unless the scope already has one;
+     "tagref"     `struct x *p;`  refers to the visible x if there is one, else
+                  declares an incomplete type in the current scope; the pointer
+                  object p<id> stays bound to that type and is probed later.
+   Level I: struct_union_decl(): without `{`: find_tag() through the whole chain
+   (only for `struct x;`: the current scope), else push an incomplete type; with
+   `{`: look in the CURRENT scope's tags only, overwrite that type in place if
+   found, else push_tag_scope.
+   After the function, file scope may still define the tag (phase "after").
+
    Invariant SameBinding: both levels bind every probe to the same declaration.
    `Variant` selects a wrong Level I (sensitivity controls).                  *)
 EXTENDS Integers, Sequences, FiniteSets, TLC, Json, CSV, IOUtils
 
-CONSTANTS MaxDecl, MaxDepth, MaxOpen, Variant, Emit
-   \* Variant: "ok" | "for-noleave" | "typedef-own-map"
+CONSTANTS MaxDecl, MaxDepth, MaxOpen, Variant, Emit,
+          Decls        \* the declaration kinds of the alphabet: subset of {"obj","typedef","enum","tag","tagfwd","tagref","mem","lab"}
+   \* Variant: "ok" | "for-noleave" | "typedef-own-map" | "def-completes-outer" (a definition completes an
+   \*          incomplete tag of an ENCLOSING scope) | "fwd-finds-outer" (`struct x;` binds to an outer tag)
 
 None == [k |-> "none", id |-> 0]
 OrdKinds == {"obj", "typedef", "enum"}
@@ -41,8 +60,10 @@ VARIABLES stA,      \* Level A: sequence of scopes [kind, ord, tag]  (innermost 
           labA, labI, \* label x of the current function: id or 0 / list of ids
           nd,       \* declarations so far
           phase,    \* "file" | "fn" | "after"
-          hist
-vars == <<stA, chI, kinds, labA, labI, nd, phase, hist>>
+          hist,
+          defA, defI,   \* type (named by the event that created it) -> defining event, 0 = incomplete
+          ptrA, ptrI    \* pointer objects `struct x *p<id>;` in scope: sequence of [pid, tid, lvl]
+vars == <<stA, chI, kinds, labA, labI, nd, phase, hist, defA, defI, ptrA, ptrI>>
 
 ScA(kind) == [kind |-> kind, ord |-> None, tag |-> 0]
 ScI == [vars |-> None, tdefs |-> None, tags |-> 0]
@@ -68,33 +89,55 @@ BindI(ns) == IF ns = "tag" THEN FindTag(chI, Len(chI))
 LabelBindA == labA
 LabelBindI == IF labI = <<>> THEN 0 ELSE labI[1]       \* resolve_goto_labels: first match in the (prepended) list
 
-Probe == [ord |-> BindA("ord"), tag |-> BindA("tag"), lab |-> LabelBindA]
+DefOf(d, tid) == IF tid = 0 THEN 0 ELSE d[tid]
+(* what a probe sees: the ordinary binding, the defining event of the visible tag (0: none or incomplete),
+   the label, and for every pointer in scope the defining event of the type it points to *)
+Probe == [ord |-> BindA("ord"), tag |-> DefOf(defA, BindA("tag")), lab |-> LabelBindA,
+          ptrs |-> [i \in DOMAIN ptrA |-> [pid |-> ptrA[i].pid, def |-> DefOf(defA, ptrA[i].tid)]]]
 Ev(e, k, p, id) == [e |-> e, k |-> k, p |-> p, id |-> id, exp |-> Probe']
 
 (* ---- events ---- *)
 Depth == Len(kinds)
 
 Decl(ns, k) ==
-  LET id == nd + 1
-      top == Len(stA)
-  IN /\ nd < MaxDecl /\ phase \in {"file", "fn"}
+  LET id   == nd + 1
+      top  == Len(stA)
+      t    == Len(chI)
+      curA == stA[top].tag
+      curI == chI[t].tags
+      visA == BindA("tag")
+      visI == FindTag(chI, t)
+      (* Level A: <<scope entry, type the declaration denotes>> *)
+      tA   == IF k = "tag" \/ k = "tagfwd" THEN (IF curA # 0 THEN curA ELSE id)
+              ELSE (IF visA # 0 THEN visA ELSE id)
+      (* Level I: struct_union_decl *)
+      outerI == IF visI # 0 /\ curI = 0 /\ defI[visI] = 0 THEN visI ELSE 0
+      tI   == IF k = "tag" THEN (IF curI # 0 THEN curI
+                                 ELSE IF Variant = "def-completes-outer" /\ outerI # 0 THEN outerI ELSE id)
+              ELSE IF k = "tagfwd" /\ Variant # "fwd-finds-outer" THEN (IF curI # 0 THEN curI ELSE id)
+              ELSE (IF visI # 0 THEN visI ELSE id)
+  IN /\ nd < MaxDecl
+     /\ IF ns = "tag" /\ k = "tag" THEN phase \in {"file", "fn", "after"} ELSE phase \in {"file", "fn"}
      /\ ns = "ord" => stA[top].ord = None          \* one declaration of x per scope and name space
-     /\ ns = "tag" => stA[top].tag = 0
+     /\ (ns = "tag" /\ k = "tag") => (IF curA = 0 THEN TRUE ELSE defA[curA] = 0)      \* no redefinition in one scope
      /\ ns \in {"lab", "mem"} => phase = "fn"
      /\ ns = "lab" => labA = 0
      /\ nd' = id
      /\ stA' = IF ns = "ord" THEN [stA EXCEPT ![top].ord = [k |-> k, id |-> id]]
-               ELSE IF ns = "tag" THEN [stA EXCEPT ![top].tag = id] ELSE stA
-     /\ chI' = LET t == Len(chI) IN
-               IF ns = "ord" THEN (IF Variant = "typedef-own-map" /\ k = "typedef"
+               ELSE IF ns = "tag" /\ tA = id THEN [stA EXCEPT ![top].tag = id] ELSE stA
+     /\ chI' = IF ns = "ord" THEN (IF Variant = "typedef-own-map" /\ k = "typedef"
                                    THEN [chI EXCEPT ![t].tdefs = [k |-> k, id |-> id]]
                                    ELSE [chI EXCEPT ![t].vars = [k |-> k, id |-> id]])     \* push_scope(name)
-               ELSE IF ns = "tag" THEN [chI EXCEPT ![t].tags = id]                          \* push_tag_scope
+               ELSE IF ns = "tag" /\ tI = id THEN [chI EXCEPT ![t].tags = id]               \* push_tag_scope
                ELSE chI
+     /\ defA' = IF ns = "tag" /\ k = "tag" THEN [defA EXCEPT ![tA] = id] ELSE defA
+     /\ defI' = IF ns = "tag" /\ k = "tag" THEN [defI EXCEPT ![tI] = id] ELSE defI       \* *ty2 = *ty / new type
+     /\ ptrA' = IF k = "tagref" THEN Append(ptrA, [pid |-> id, tid |-> tA, lvl |-> top]) ELSE ptrA
+     /\ ptrI' = IF k = "tagref" THEN Append(ptrI, [pid |-> id, tid |-> tI, lvl |-> t]) ELSE ptrI
      /\ labA' = IF ns = "lab" THEN id ELSE labA
      /\ labI' = IF ns = "lab" THEN <<id>> \o labI ELSE labI
      /\ UNCHANGED <<kinds, phase>>
-     /\ hist' = Append(hist, Ev("decl", IF ns = "ord" THEN k ELSE ns, FALSE, id))
+     /\ hist' = Append(hist, Ev("decl", IF ns = "ord" THEN k ELSE IF ns = "tag" THEN k ELSE ns, FALSE, id))
 
 Open(kind, p) ==
   LET id == nd + 1
@@ -110,7 +153,7 @@ Open(kind, p) ==
      /\ chI' = IF kind = "block" THEN Append(chI, ScI)                            \* compound_stmt: enter_scope
                ELSE chI \o <<[ScI EXCEPT !.vars = IF p THEN decl ELSE None], ScI>>   \* enter_scope; declaration; body: enter_scope
      /\ kinds' = Append(kinds, [kind |-> kind, nA |-> IF kind = "for" THEN 2 ELSE 1, nI |-> IF kind = "block" THEN 1 ELSE 2])
-     /\ UNCHANGED <<labA, labI>>
+     /\ UNCHANGED <<labA, labI, defA, defI, ptrA, ptrI>>
      /\ hist' = Append(hist, Ev("open", kind, p, IF p THEN id ELSE 0))
 
 Close ==
@@ -121,9 +164,10 @@ Close ==
      /\ stA' = SubSeq(stA, 1, Len(stA) - g.nA)
      /\ chI' = SubSeq(chI, 1, Len(chI) - popI)
      /\ phase' = IF g.kind = "fn" THEN "after" ELSE "fn"
-     /\ UNCHANGED <<nd, labA, labI>>
+     /\ UNCHANGED <<nd, labA, labI, defA, defI>>
+     /\ ptrA' = SelectSeq(ptrA, LAMBDA q : q.lvl <= Len(stA'))          \* pointers of the closed scopes are gone
+     /\ ptrI' = SelectSeq(ptrI, LAMBDA q : q.lvl <= Len(chI) - g.nI)
      /\ hist' = Append(hist, Ev("close", g.kind, FALSE, 0))
-     /\ (Emit /\ g.kind = "fn") => CSVWrite("%1$s", <<ToJson([h |-> hist'])>>, IOEnv.OUT)
 
 (* a second function g with its own label x follows every history: labels are per function *)
 SecondFn ==
@@ -131,15 +175,18 @@ SecondFn ==
   /\ phase' = "done"
   /\ labA' = 99
   /\ labI' = <<99>>                      \* gotos = labels = NULL after f, then g declares its own x
-  /\ UNCHANGED <<stA, chI, kinds, nd>>
+  /\ UNCHANGED <<stA, chI, kinds, nd, defA, defI, ptrA, ptrI>>
   /\ hist' = Append(hist, Ev("g", "lab", FALSE, 99))
+  /\ Emit => CSVWrite("%1$s", <<ToJson([h |-> hist'])>>, IOEnv.OUT)
 
 Init == /\ stA = <<ScA("file")>> /\ chI = <<ScI>> /\ kinds = <<>>
         /\ labA = 0 /\ labI = <<>> /\ nd = 0 /\ phase = "file" /\ hist = <<>>
+        /\ defA = [i \in 1..MaxDecl |-> 0] /\ defI = [i \in 1..MaxDecl |-> 0] /\ ptrA = <<>> /\ ptrI = <<>>
 
-Next == \/ \E k \in OrdKinds : Decl("ord", k)
-        \/ \E ns \in {"tag", "mem", "lab"} : Decl(ns, ns)
-        \/ \E kind \in {"fn", "block", "for"}, p \in BOOLEAN : (kind = "block" => ~p) /\ Open(kind, p)
+Next == \/ \E k \in OrdKinds \cap Decls : Decl("ord", k)
+        \/ \E ns \in {"mem", "lab"} \cap Decls : Decl(ns, ns)
+        \/ \E k \in {"tag", "tagfwd", "tagref"} \cap Decls : Decl("tag", k)
+        \/ \E kind \in {"fn", "block", "for"}, p \in BOOLEAN : (kind = "block" => ~p) /\ (p => "obj" \in Decls) /\ Open(kind, p)
         \/ Close
         \/ SecondFn
 Spec == Init /\ [][Next]_vars
@@ -147,6 +194,11 @@ Spec == Init /\ [][Next]_vars
 ----------------------------------------------------------------------------
 SameBinding == /\ BindI("ord") = BindA("ord")
                /\ BindI("tag") = BindA("tag")
+               /\ DefOf(defI, BindI("tag")) = DefOf(defA, BindA("tag"))
+               /\ Len(ptrI) = Len(ptrA)
+               /\ \A i \in DOMAIN ptrA : i \in DOMAIN ptrI =>
+                     /\ ptrI[i].pid = ptrA[i].pid /\ ptrI[i].tid = ptrA[i].tid
+                     /\ DefOf(defI, ptrI[i].tid) = DefOf(defA, ptrA[i].tid)
                /\ LabelBindI = LabelBindA
 (* enter_scope / leave_scope are balanced: after the function the chain is the file scope again *)
 Balanced == phase \in {"after", "done"} => Len(chI) = 1 /\ Len(stA) = 1
